@@ -47,6 +47,9 @@ Extensions (audit round; every one uses the same oracle and the same clauses T1-
     sequences, the default bin_size / eps.
   * an exception raised by the real call is a violation (TypingError for a dtype/layout, IndexError ...).
   * a case with a rounding tie is counted as trivial (it asserts nothing).
+  * the run ends once STOP_AFTER violations are recorded (see _enough: a refuted kernel that indexes
+    without bounds checks can corrupt the heap and take the report with it).
+One hit class is NOT judged, see POSSIBLE DEFECT below (flag ASSERT_UNKNOWN_CHAR_ABOVE_HIGHEST_ATTAINABLE).
 """
 import itertools
 import math
@@ -83,7 +86,7 @@ BIN_SIZES = [0.01, 0.02, 0.05, 0.1, 0.2, 0.25, 0.5, 1.0]
 EPSS = [1e-6, 1e-5, 1e-4, 1e-3, 1e-2, 0.1]
 
 SCOPE = {
-    'quick': 'float64 PWMs 4 x w (columns sum to 1); (a) exhaustive over a library of 9 column types (uniform, 4 one-hot, '
+    'quick': 'PWMs 4 x w; (a)-(c) float64 with columns summing to 1, contiguous; (a) exhaustive over a library of 9 column types (uniform, 4 one-hot, '
              'two-zero, one-zero, skewed, near-uniform): every PWM of width 1 and 2 x all 48 (bin, eps) pairs of '
              '{0.01,0.02,0.05,0.1,0.2,0.25,0.5,1} x {1e-6,1e-5,1e-4,1e-3,1e-2,0.1}, every PWM of width 3 x 6 pairs; '
              '(b) seeded random PWMs (Dirichlet conc. 0.05-50, zero entries, uniform / one-hot / repeated columns mixed in): '
@@ -760,7 +763,7 @@ def run(rep):
         w = 1 + k % wmax_var
         pwm = random_pwm2(rng, w)
         e = random_eps2(rng)
-        b = random_bin2(rng, small_ok=thorough or w <= 8 or k % 5 == 0)
+        b = random_bin2(rng, small_ok=w <= 8 or k % 5 == 0 or (thorough and w <= 16))
         f32 = rng.random() < 0.3
         layout = rng.choice(LAYOUTS32 if f32 else LAYOUTS64)
         _run_table(rep, pwm, e, b, w <= 6, 'extended-family-layouts-float32', ('var', k), layout=layout, f32=f32)
